@@ -6,9 +6,9 @@ F = "/vfs/f.md"
 
 
 def doc_of(case):
-    sk = case["params"]["skeleton"]
+    sk = case["params"].get("skeleton", "")
     out = list(sk)
-    for k, h in enumerate(case["params"]["holes"]):
+    for k, h in enumerate(case["params"].get("holes", [])):
         out[h] = chr(case["vars"][f"c{k}"])
     return "".join(out)
 
@@ -21,6 +21,10 @@ def replay(case):
     prop = case["params"]["prop"]
     if prop == "C13":
         return replay_c13(case)
+    if prop == "C18" and case["params"].get("kernel"):
+        return {"violates": False, "observed": {"note": "kernel case: no whole-program replay"}}
+    if prop == "C18" and "argv" in case["params"]:
+        return replay_c18_concrete(case)
     doc = doc_of(case)
     obs = {"doc": doc}
     sel = case["params"].get("selection", "default")
@@ -43,6 +47,10 @@ def replay(case):
         return replay_c14(case, doc, obs)
     if prop == "C16":
         return replay_c16(case, doc, obs)
+    if prop == "C18":
+        return replay_c18(case, doc, obs)
+    if prop == "C15":
+        return replay_c15(case, doc, obs)
     raise ValueError(prop)
 
 
@@ -313,4 +321,204 @@ def replay_c13(case):
     sp = [tuple(x[1:]) for x in os_["pragma"]]
     v = scan_props.c13(mf, sf, mp, sp, mt, st, B in om["fixed"], B in os_["fixed"])
     obs["violations"] = v
+    return {"violates": bool(v), "observed": obs}
+
+
+def _recorder():
+    import os
+    import sys
+
+    plug = os.path.join(os.path.dirname(os.path.dirname(os.path.abspath(__file__))), "plugins")
+    if plug not in sys.path:
+        sys.path.insert(0, plug)
+    import recorder_rule
+
+    return recorder_rule.RecorderRule, os.path.join(plug, "recorder_rule.py")
+
+
+def replay_c18(case, doc, obs):
+    p = case["params"]
+    sc = p["scenario"]
+    minimal = bool(p.get("minimal"))
+    pre = []
+    if minimal:
+        pre = ["--return-code-scheme", "minimal"] if p.get("scheme_by", "arg") == "arg" else ["-s", "mode.return_code_scheme=minimal"]
+    GOOD, BAD = "# ok\n", "x  \n\n\ny"
+    R, RPATH = _recorder()
+    R.reset()
+    with Sandbox() as sb:
+        if sc == "scan1":
+            sb.write(F, doc); o = real_main(sb, pre + ["scan", F])
+        elif sc == "fix1":
+            sb.write(F, doc); o = real_main(sb, pre + ["fix", F])
+        elif sc == "scan2":
+            sb.write(A, doc); sb.write(B, BAD); o = real_main(sb, pre + ["scan", A, B])
+        elif sc == "fix2":
+            sb.write(A, doc); sb.write(B, GOOD); o = real_main(sb, pre + ["fix", A, B])
+        elif sc == "stdin":
+            o = real_main(sb, pre + ["scan-stdin"], stdin=doc)
+        elif sc == "list":
+            sb.write(F, doc); o = real_main(sb, pre + ["scan", "-l", F])
+        elif sc in ("fault", "fault-continue", "fault-fix"):
+            R.reset(fault_at=case["vars"]["k"])
+            sb.write(A, doc); sb.write(B, GOOD)
+            o = real_main(sb, pre + ["--add-plugin", RPATH] + (["--continue-on-error"] if sc == "fault-continue" else []) + ["fix" if sc == "fault-fix" else "scan", A, B])
+        else:
+            raise ValueError(sc)
+    R.reset()
+    v = scan_props.c18(o["code"], o["err"], [] if sc == "list" else o["fails"], o["fixed"], minimal)
+    obs.update(code=o["code"], err=o["err"][:3], nfails=len(o["fails"]), fixed=o["fixed"], violations=v)
+    return {"violates": bool(v), "observed": obs}
+
+
+def replay_c18_concrete(case):
+    """argv-shaped scenarios without a document (replayed as they are)."""
+    p = case["params"]
+    minimal = bool(p.get("minimal"))
+    pre = ["--return-code-scheme", "minimal"] if minimal else []
+    with Sandbox() as sb:
+        sb.write("/vfs/bad.json", "{ not json")
+        sb.write("/vfs/cfg.json", '{"plugins": {"md013": {"line_length": "x"}}}')
+        sb.write(F, "# ok\n")
+        o = real_main(sb, pre + p["argv"])
+    v = scan_props.c18(o["code"], o["err"], o["fails"], o["fixed"], minimal, forced_category=p["category"])
+    return {"violates": bool(v), "observed": {"argv": p["argv"], "code": o["code"], "err": o["err"][:2], "violations": v}}
+
+
+_CRASH_CHILD = r'''
+import json, os, sys, shutil
+sys.path.insert(0, os.environ.get("VERIF_REPO", "/repo"))
+spec = json.load(open(sys.argv[1]))
+state = {"step": 0}
+CH = spec["chunk"]
+def tick():
+    k = state["step"]; state["step"] = k + 1
+    if k == spec["crash_at"]:
+        os._exit(9)
+def copyfile(src, dst):
+    text = open(src, encoding="utf-8", newline="").read()
+    tick()                                   # before-open
+    f = open(dst, "w", encoding="utf-8", newline="")
+    f.flush(); os.fsync(f.fileno())
+    tick()                                   # after-truncate
+    i = 0
+    while i < len(text):
+        f.write(text[i:i + CH]); f.flush(); os.fsync(f.fileno())
+        i += CH
+        if i < len(text):
+            tick()                           # after-chunk
+    f.close()
+    return dst
+import pymarkdown.file_scan_helper as FS
+class _Sh:
+    copyfile = staticmethod(copyfile)
+    def __getattr__(self, n): return getattr(shutil, n)
+FS.shutil = _Sh()
+_orig_replace = os.replace
+def replace(src, dst):
+    tick()
+    return _orig_replace(src, dst)
+os.replace = replace
+from pymarkdown.main import PyMarkdownLint
+try:
+    PyMarkdownLint().main(spec["argv"])
+except SystemExit as e:
+    sys.exit(0)
+'''
+
+
+def replay_c15(case, doc, obs):
+    import json
+    import os
+    import subprocess
+    import sys
+
+    p = case["params"]
+    sc, mode, cont = p["scenario"], p.get("mode", "scan"), bool(p.get("cont"))
+    OTHER = "x  \n\n\n# y"
+    R, RPATH = _recorder()
+    if p.get("fixrule"):
+        RPATH = RPATH.replace("recorder_rule.py", "recorder_fix_rule.py")
+    base = ["--add-plugin", RPATH]
+    argv = base + (["--continue-on-error"] if cont else []) + [mode, A, B]
+    originals = {A: doc, B: OTHER}
+    fixed_alone, other_alone = {}, None
+    R.reset()
+    if mode == "fix":
+        for path in (A, B):
+            with Sandbox() as sb:
+                sb.write(path, originals[path])
+                real_main(sb, base + ["fix", path])
+                fixed_alone[path] = sb.read(path)
+    if cont:
+        with Sandbox() as sb:
+            sb.write(B, OTHER)
+            oo = real_main(sb, base + [mode, B])
+            other_alone = [tuple(f[1:]) for f in oo["fails"]]
+    k = case["vars"].get("k")
+    if sc == "crash":
+        with Sandbox() as sb:
+            sb.write(A, doc)
+            sb.write(B, OTHER)
+            spec = {"argv": [sb.path(a) if a.startswith("/vfs/") else a for a in argv], "crash_at": k, "chunk": 4}
+            sp = os.path.join(sb.root, "spec.json")
+            json.dump(spec, open(sp, "w"))
+            env = dict(os.environ, TMPDIR=sb.tmp)
+            r = subprocess.run([sys.executable, "-c", _CRASH_CHILD, sp], env=env, capture_output=True, timeout=60)
+            crashed = r.returncode == 9
+            files = [(x, sb.read(x)) for x in sb.listing()]
+        v = scan_props.c15_crash(files, crashed, [A, B], originals, fixed_alone)
+        obs.update(crashed=crashed, files=files, violations=v)
+        return {"violates": bool(v), "observed": obs}
+    pf = None
+    if sc == "parser-fault":
+        from pymarkdown.general.tokenized_markdown import TokenizedMarkdown
+
+        name = "_TokenizedMarkdown__parse_blocks_pass"
+        orig = getattr(TokenizedMarkdown, name)
+        pf = {"n": 0, "fired": False}
+
+        def wrapped(self, *a, **kw):
+            n = pf["n"]
+            pf["n"] = n + 1
+            if n == k:
+                pf["fired"] = True
+                raise RuntimeError("injected parser fault")
+            return orig(self, *a, **kw)
+
+        setattr(TokenizedMarkdown, name, wrapped)
+    try:
+        with Sandbox() as sb:
+            sb.write(A, doc)
+            sb.write(B, OTHER)
+            bad = None
+            if sc == "undecodable":
+                bad = A if p.get("which", "a") == "a" else B
+                sb.write_bytes(bad, b"\xff\xfe" + originals[bad].encode("utf-8"))
+                originals[bad] = None
+            R.reset(fault_at=k if sc == "plugin-fault" else None)
+            o = real_main(sb, argv)
+            files = []
+            for x in sb.listing():
+                try:
+                    files.append((x, sb.read(x)))
+                except UnicodeDecodeError:
+                    files.append((x, None))
+            files += [("/vtmp/" + n, "") for n in sb.temp_leftovers()]
+            if sc == "undecodable":
+                faulted, ff = True, bad
+                fixed_alone[bad] = None
+            elif sc == "plugin-fault":
+                faulted, ff = R.FAULTED, (sb.vpath(R.FAULT_FILE) if R.FAULT_FILE else None)
+            else:
+                faulted, ff = pf["fired"], None
+    finally:
+        if pf is not None:
+            setattr(TokenizedMarkdown, name, orig)
+        R.reset()
+    oo = _O(o, files)
+    oo.fail_tuples = lambda with_file=False: [tuple(f) if with_file else tuple(f[1:]) for f in o["fails"]]
+    other = B if ff != B else A
+    v = scan_props.c15_fault(oo, [A, B], faulted, ff, cont, mode, originals, fixed_alone, other_alone if other == B else None, other)
+    obs.update(code=o["code"], err=o["err"][:2], faulted=faulted, fault_file=ff, violations=v)
     return {"violates": bool(v), "observed": obs}
